@@ -349,6 +349,17 @@ def r5_main_guard(ctx):
                'the skip is conditional on the operator being ast.Eq' if ok_op else
                'the operator of the comparison is not examined: `if __name__ != "__main__":` (which does run on import) is skipped as well', anchor=f.qualname)
     for mb in main_branches:
+        # the three conditions (operator, left side, right side) hold TOGETHER: combined by `any` / `or` the block of every `if X == <anything>:` and
+        # every comparison of __name__ is skipped like the main guard
+        t_ = mb.attrs['test'].ast
+        disj = (isinstance(t_, ast.Call) and is_name(t_.func, 'any')) or (isinstance(t_, ast.BoolOp) and isinstance(t_.op, ast.Or))
+        mentions = {x.value for x in ast.walk(t_) if isinstance(x, ast.Constant) and isinstance(x.value, str)}
+        if {'__name__', '__main__'} & mentions:
+            rep.ob('C07.R5', ctx.loc(f, t_), 'the conditions of the main guard hold together', not disj,
+                   'conjunction of the operator, name and value tests' if not disj else
+                   'the tests that recognise `if __name__ == "__main__":` are combined by `%s`: any ONE of them suffices, so every `if <name> == ...:` block and every comparison of '
+                   '__name__ is skipped, with all functions and classes defined in it' % ('any' if isinstance(t_, ast.Call) else 'or'), anchor=f.qualname)
+    for mb in main_branches:
         p = graph.path([mb], lambda x: any(x is d for d in descents), efilter=graph.normal_only)
         rep.ob('C07.R5', ctx.loc(f, mb.attrs['test'].ast), 'main-guard branch: %s' % ctx.src(mb.attrs['test'].ast, 90), p is None,
                'the branch taken for `if __name__ == "__main__":` leaves without descending' if p is None else
@@ -815,6 +826,7 @@ from ..selftest import fire, silent      # noqa: E402
 SA = 'xdoctest/static_analysis.py'
 CO = 'xdoctest/core.py'
 VARIANTS = [
+    fire('main-guard-conditions-combined-by-any', 'C07.R5', (SA, "                if IS_PY_GE_312:\n                    if all([\n", "                if IS_PY_GE_312:\n                    if any([\n")),
     fire('accessor-exit-only-for-plain-names', 'C07.R4', (SA, "                if isinstance(decor, ast.Attribute):\n", "                if (isinstance(decor, ast.Attribute) and\n                        isinstance(decor.value, ast.Name)):\n")),
     fire('style-not-forwarded-to-the-docstring-parser', 'C07.R10', ('xdoctest/core.py', "                    style=style, parser_kw=parser_kw)\n", "                    parser_kw=parser_kw)\n")),
     fire('package-init-files-not-walked', 'C07.R10', ('xdoctest/core.py', "            pkgpath, with_pkg=True, with_libs=True))\n", "            pkgpath, with_libs=True))\n")),
